@@ -186,11 +186,24 @@ fn render_pattern_pixmap(
     };
 
     let rect = pattern.rect();
+
+    #[cfg(resvg_verif)]
+    crate::verif::log(|| {
+        format!(
+            "pattern_in {:08x} {:08x}",
+            (rect.width() * sx).to_bits(),
+            (rect.height() * sy).to_bits()
+        )
+    });
+
     let img_size = tiny_skia::IntSize::from_wh(
         (rect.width() * sx).round() as u32,
         (rect.height() * sy).round() as u32,
     )?;
     let mut pixmap = tiny_skia::Pixmap::new(img_size.width(), img_size.height())?;
+
+    #[cfg(resvg_verif)]
+    crate::verif::log(|| format!("pattern_out {} {}", pixmap.width(), pixmap.height()));
 
     let transform = tiny_skia::Transform::from_scale(sx, sy);
     crate::render::render_nodes(pattern.root(), ctx, transform, &mut pixmap.as_mut());
